@@ -49,7 +49,7 @@ for pid, tech, text in [
   "Theorems in coq/Properties/Properties_C11.v for every registry state with unique keys and every request."),
  ("C13", "Coq proof (NAT changes the source address only; the connection record only for the connector's SYN; over whole routes: any chain of NAT hops is crossed in the same step and leaves kind, bytes, number, port, remaining route and every socket/registry untouched, the source address becoming the last NAT's; the last hop delivers in the same step) + whole-scenario trace equality + endpoint-view oracle",
   "Theorems in coq/Properties/Properties_C13.v."),
- ("C14", "Coq proof (scheduling rule max(now, last)+latency, literals in completion-time order, cancel aborts every pending lookup exactly once) + exhaustive short sequences and random long ones in trace equality + serial-server oracle",
+ ("C14", "Coq proof (over whole histories of host-name and literal lookups, completions and cancels at any times: the queue stays sorted by completion time, so the head the timer is armed for is always next, no operation reorders queued lookups, a completion pops the head exactly once and an early timer completes nothing; scheduling rule max(now, last)+latency, literals in completion-time order, cancel aborts every pending lookup exactly once) + exhaustive short sequences and random long ones in trace equality + serial-server oracle",
   "Theorems in coq/Properties/Properties_C14.v."),
  ("C20", "Coq proof (over a whole write: every segment carries 1..mss bytes and the segments are consecutive slices of the gather list, never merged or split afterwards by NAT or tcp_send_packet; the accepting side takes its MSS from the path MTU; DF table) + trace equality with probes recording every segment + size oracle",
   "Theorems in coq/Properties/Properties_C20.v."),
